@@ -23,6 +23,11 @@ class SmtOnly(Exception):
 def _rewrite(tree, olds):
     class R(ast.NodeTransformer):
         def visit_Call(self, node):
+            if isinstance(node.func, ast.Name) and node.func.id in speclib.NATIVE_OLD:
+                # two-state helper: f(G, ...) -> f2(G, old(G), ...)
+                g = node.args[0]
+                oldg = ast.Call(func=ast.Name(id='old', ctx=ast.Load()), args=[g], keywords=[])
+                node = ast.Call(func=ast.Name(id='__2state_' + node.func.id, ctx=ast.Load()), args=[g, oldg] + node.args[1:], keywords=[])
             self.generic_visit(node)
             if isinstance(node.func, ast.Name):
                 if node.func.id == 'old':
@@ -53,7 +58,9 @@ class Clause:
 
 
 def native_globals():
-    g = {name: sp.native for name, sp in speclib.SPEC_FUNCS.items()}
+    g = {name: sp.native for name, sp in speclib.SPEC_FUNCS.items() if sp.native is not None}
+    for name, fn in speclib.NATIVE_OLD.items():
+        g['__2state_' + name] = fn
     from . import native_graph
     g.update(native_graph.NATIVE)
     return g
@@ -64,6 +71,7 @@ class Checked:
 
     def __init__(self):
         self.pre_ok = True
+        self.errors = []         # contract text that could not be evaluated natively (never a verdict)
         self.violations = []     # (clause kind, text, detail)
         self.result = None
         self.exc = None
@@ -96,7 +104,7 @@ def check_call(con, fn, args=(), kwargs=None, self_obj=None):
                 return out
         except Exception as e:  # noqa
             out.pre_ok = False
-            out.violations.append(('requires', r, 'precondition raised %s: %s' % (type(e).__name__, e)))
+            out.errors.append(('requires', r, 'precondition raised %s: %s' % (type(e).__name__, e)))
             return out
     ens = [Clause(e) for e in con.ensures]
     raises = {en: (Clause(sp['when']) if sp.get('when') else None, sp) for en, sp in con.raises.items()}
@@ -150,7 +158,7 @@ def check_call(con, fn, args=(), kwargs=None, self_obj=None):
         try:
             ok = bool(eval(cl.code, {**g, **loc}))
         except Exception as e:  # noqa
-            out.violations.append(('post', cl.text, 'clause raised %s: %s' % (type(e).__name__, e)))
+            out.errors.append(('post', cl.text, 'clause raised %s: %s' % (type(e).__name__, e)))
             continue
         if not ok:
             out.violations.append(('post', cl.text, 'clause is false; result=%r' % (out.result,)))
@@ -236,6 +244,8 @@ def witness_run(con, limit=400):
         except Exception as e:  # noqa
             out.setdefault('harness_errors', []).append('%s: %s' % (type(e).__name__, e))
             continue
+        if res.errors:
+            out.setdefault('clause_errors', []).append(res.errors[0][2])
         if not res.pre_ok:
             continue
         out['pre_ok'] += 1
